@@ -37,7 +37,7 @@ fn flatten<'e>(e: &'e Expr) -> (&'e Expr, Vec<Call<'e>>) {
     (cur, calls)
 }
 
-const TERMINALS: &[&str] = &["position", "find", "all", "any", "fold", "collect", "for_each"];
+const TERMINALS: &[&str] = &["position", "find", "find_map", "all", "any", "fold", "collect", "for_each"];
 
 struct Seq {
     setup: Vec<String>,
@@ -426,6 +426,27 @@ pub fn rw_chain(r: &R, e: &Expr) -> Option<String> {
             }
             s.push_str(&format!("        if {} {{ {} = Some({}); }} else {{ {} = {} + 1; }}\n    }}\n    {}\n}})", body, res, some, i, i, res));
         }
+        "find_map" => {
+            // std: the first `Some` the closure returns, `None` when it returns `None` for every element
+            let cl = closure_of(tc.args[0])?;
+            let mut b = pre.clone();
+            bind(r, &cl.inputs[0], &cur, copy, &mut b);
+            if !guards.is_empty() {
+                r.err("find_map after a filter");
+                return None;
+            }
+            let body = closure_body(r, cl);
+            let rty = spec.opts.get("rty").map(|t| format!(": Option<{}>", t)).unwrap_or_default();
+            s.push_str(&format!("    let mut {}{} = None;\n", res, rty));
+            s.push_str(&format!(
+                "    {attr}\n    while {res}.is_none() && {i} < {n}\n        invariant {auto},\n{inv}\n        decreases ({n} - {i}) + (if {res}.is_none() {{ 1int }} else {{ 0int }}),\n    {{\n",
+                attr = loop_attr, res = res, i = i, n = n, auto = auto_inv, inv = inv_user
+            ));
+            for l in &b {
+                s.push_str(&format!("        {}\n", l));
+            }
+            s.push_str(&format!("        let qx_fm = {};\n        if qx_fm.is_some() {{ {} = qx_fm; }} else {{ {} = {} + 1; }}\n    }}\n    {}\n}})", body, res, i, i, res));
+        }
         "fold" => {
             let cl = closure_of(tc.args[1])?;
             if cl.inputs.len() != 2 {
@@ -687,7 +708,7 @@ pub fn rw_option(r: &R, e: &Expr) -> Option<String> {
             let f = r.expr(&mc.args[0]);
             Some(format!("(match {} {{ Ok(qx_v) => Ok({}(qx_v)), Err(qx_e) => Err(qx_e) }})", recv, f))
         }
-        "map" | "or_else" if mc.args.len() == 1 && r.opts.has_rw("res_closure") => {
+        "map" | "or_else" | "and_then" if mc.args.len() == 1 && r.opts.has_rw("res_closure") => {
             let cl = closure_of(&mc.args[0])?;
             guard_inline(r, cl);
             if cl.inputs.len() != 1 {
@@ -699,6 +720,8 @@ pub fn rw_option(r: &R, e: &Expr) -> Option<String> {
             let b = r.expr(&cl.body);
             if m == "map" {
                 Some(format!("(match {} {{ Ok({}) => Ok({}), Err(qx_e) => Err(qx_e) }})", recv, p, b))
+            } else if m == "and_then" {
+                Some(format!("(match {} {{ Ok({}) => {}, Err(qx_e) => Err(qx_e) }})", recv, p, b))
             } else {
                 Some(format!("(match {} {{ Ok(qx_v) => Ok(qx_v), Err({}) => {} }})", recv, p, b))
             }
